@@ -1,6 +1,6 @@
 From Coq Require Import List Arith Lia Bool.
 Import ListNotations.
-From LSConc Require Import Clock Mach Inv Pres Pres2 Pres3 Pres4 Pres5 Pres6 Pres7 StepSpec.
+From LSConc Require Import Clock Mach Inv Pres Pres2 Pres3 Pres4 Pres5 Pres6 Pres7 StepSpec Values.
 
 Lemma pres s t a s' : Inv s -> step s t a = Ok s' -> Inv s'.
 Proof.
@@ -34,6 +34,8 @@ Proof.
   - intros t. rewrite T_init. destruct t; cbn; [discriminate|auto].
   - cbn. rewrite total_repeat. intros _ H. discriminate H.
   - intros c p. rewrite T_init. destruct c; cbn; discriminate.
+  - intros t p m. rewrite T_init. destruct p as [|[|p]]; cbn [init msgs nth_error]; try discriminate.
+    intros Hr [= <-] _. cbn [val]. destruct t; cbn in *; lia.
 Qed.
 
 (* every schedule, any number of threads, any (well-typed) action at each step, stale probes included *)
@@ -140,3 +142,44 @@ Proof.
   destruct (Nat.eqb_spec (lend (getth s c)) 0); [contradiction|].
   destruct (Mach.live s); discriminate.
 Qed.
+
+(* ---------- a lender and its other handles ----------
+   While &h is lent the lender may go on using every OTHER handle it holds on the same buffer: clone, drop (it keeps the
+   lent one: a release needs two references), and the uniqueness probe behind every &mut method — which can never
+   observe 1, whichever message it reads (J11), so the lender never writes in place under a borrower. *)
+Theorem lender_release_enabled s t : Inv s -> t < length (ths s) -> started (getth s t) = true ->
+  2 <= refs (getth s t) -> exists s', step s t ARelease = Ok s'.
+Proof.
+  intros I Ht Hst H2. destruct (step s t ARelease) as [s'|e|] eqn:E; [eauto|exfalso; eapply safe; eauto|exfalso].
+  unfold step in E. destruct (Nat.ltb_spec t (length (ths s))); [|lia]. cbn [negb] in E. rewrite Hst in E. cbn [negb] in E.
+  destruct (Nat.ltb_spec 0 (refs (getth s t))); [|lia]. cbn [negb orb] in E.
+  destruct (mustfree (getth s t)) eqn:Hm.
+  - destruct (J4 s I t Hm) as (_ & Hz & _). pose proof (total_ge (ths s) t). unfold getth in H2. lia.
+  - cbn [orb] in E. destruct (Nat.leb_spec (refs (getth s t)) 1); [lia|]. rewrite andb_false_r in E.
+    destruct (Mach.live s); discriminate.
+Qed.
+Theorem lender_probe_not_exclusive s t p s' : Inv s -> lends_from s t = true -> step s t (AProbe p) = Ok s' ->
+  excl (getth s' t) = false /\ refs (getth s' t) = refs (getth s t) /\ 2 <= refs (getth s t).
+Proof.
+  intros I Hl H. pose proof H as H0. unfold step in H0.
+  destruct (Nat.ltb_spec t (length (ths s))) as [Ht|]; cbn [negb] in H0; [|discriminate].
+  destruct (started (getth s t)); cbn [negb] in H0; [|discriminate].
+  destruct (Nat.ltb_spec 0 (refs (getth s t))) as [Hr|]; cbn [negb orb] in H0; [|discriminate].
+  rewrite Hl in H0. cbn [andb] in H0. destruct (Nat.leb_spec (refs (getth s t)) 1) as [|H2]; [discriminate|].
+  destruct (StepSpec.step_spec s t (AProbe p) s' H) as (_ & _ & _ & _ & _ & _ & _ & m & Hm & Hrefs & Hex & _).
+  split; [|split; [exact Hrefs|lia]]. rewrite Hex.
+  assert (Hlender : exists c, lend (getth s c) = S t).
+  { unfold lends_from in Hl. apply existsb_exists in Hl. destruct Hl as (x & Hin & Hx). apply Nat.eqb_eq in Hx.
+    destruct (In_nth _ _ dth Hin) as (c & _ & Hc). exists c. unfold getth. rewrite Hc. exact Hx. }
+  destruct Hlender as (c & Hc). destruct (J10 s I c t Hc) as (_ & _ & _ & _ & He & _). unfold T in He. rewrite He. cbn [orb].
+  apply Nat.eqb_neq. pose proof (Values.probe_value_ge_refs s t p m s' I H Hm). lia.
+Qed.
+(* the whole life of a loan with a busy lender: two handles, one lent; the lender probes (reads 2), drops its other
+   handle, the borrower clones through the loan, reads, drops the clone; the scope ends; the lender is alone again,
+   observes it and writes *)
+Example lender_edits_other_handle :
+  is_ok (run (init 1) [ (0, AClone); (0, ALend 1); (1, AReadB); (0, AProbe 0); (0, ARelease); (1, ACloneB); (1, ARead);
+                        (0, ARead); (1, ARelease); (0, AJoinB 1); (0, AProbe 0); (0, AWrite) ]) = true
+  /\ run (init 1) [ (0, ALend 1); (0, ARelease) ] = Stuck      (* the lent handle itself cannot be dropped *)
+  /\ run (init 1) [ (0, ALend 1); (0, AProbe 0) ] = Stuck.     (* nor probed: no &mut on a lent handle *)
+Proof. vm_compute. auto. Qed.
